@@ -53,6 +53,17 @@ enum class SE
   A,
   B
 };
+// enumerations with a 64-bit underlying type (same width under every model ABI)
+enum U64E : unsigned long long
+{
+  U64E_A = 0,
+  U64E_B = 0x1122334455667788ull
+};
+enum S64E : long long
+{
+  S64E_A = 0,
+  S64E_B = -0x1122334455667788ll
+};
 
 namespace verif {
 template<class T>
